@@ -28,8 +28,8 @@ PriorV == 900000000
 TolSum == 2000
 TolMono == 1000
 
-VARIABLES l, S, Q, limbo, snap, viol, vkeys, nviol, cnt
-vars == <<l, S, Q, limbo, snap, viol, vkeys, nviol, cnt>>
+VARIABLES l, S, Q, limbo, snap, viol, vkeys, nviol, cnt, marks
+vars == <<l, S, Q, limbo, snap, viol, vkeys, nviol, cnt, marks>>
 
 Ev == Rec[l]
 Targets == IF Ev.e = "AB" THEN E2 ELSE {Ev.e}
@@ -52,7 +52,7 @@ If(c, v) == IF c THEN <<v>> ELSE <<>>
 
 Init == /\ l = 1 /\ S = [e \in E2 |-> NewState({})] /\ Q = [e \in E2 |-> QInit({}, PriorV)]
         /\ limbo = [e \in E2 |-> {}] /\ snap = [e \in E2 |-> NoSnap]
-        /\ viol = <<>> /\ vkeys = EmptyFn /\ nviol = 0 /\ cnt = Cnt0
+        /\ viol = <<>> /\ vkeys = EmptyFn /\ nviol = 0 /\ cnt = Cnt0 /\ marks = <<>>
 
 Reset == /\ Ev.ev = "Reset"
          /\ LET pre == ToSet(Ev.pre) IN
@@ -161,12 +161,14 @@ Panic == /\ Ev.ev = "Panic"
          /\ UNCHANGED <<S, Q, limbo, snap, cnt>>
 Note == /\ Ev.ev = "Note" /\ UNCHANGED <<S, Q, limbo, snap, viol, vkeys, nviol, cnt>>
 
-Next == /\ l <= N /\ l' = l + 1
+(* cumulative violation count at the start of every segment (used by the binding self-test) *)
+Mark == marks' = IF Ev.ev = "Reset" THEN Append(marks, <<l, nviol>>) ELSE marks
+Next == /\ l <= N /\ l' = l + 1 /\ Mark
         /\ (Reset \/ Local \/ Stat \/ AddPre \/ RemPre \/ RemoveEv \/ Compute \/ Query \/ Panic \/ Note)
 Spec == Init /\ [][Next]_vars
 
 Report == (l = N + 1) =>
   JsonSerialize(IOEnv.OUT, [consumed |-> l - 1, total |-> N, nviol |-> nviol, checked |-> cnt.compute + cnt.query,
-                            cnt |-> cnt, viol |-> viol,
+                            cnt |-> cnt, viol |-> viol, marks |-> marks,
                             keys |-> [i \in 1..Len(SetToSeq(DOMAIN vkeys)) |-> [k |-> SetToSeq(DOMAIN vkeys)[i], n |-> vkeys[SetToSeq(DOMAIN vkeys)[i]]]]])
 =============================================================================
